@@ -350,6 +350,44 @@ def _select_reader_path(paths, p, reader=None):
     return None, "no path of json_to_explainable_object matches"
 
 
+def _table_reader_paths(pm, rel, reader):
+    """the reader written as a table: `for predicate, read in TABLE: if predicate(d): return read(d, …)` with TABLE a
+    module-level list of (lambda d: <test>, <reader function>) pairs. One path per entry: the earlier predicates false,
+    this one true, then the body of its reader function (its first parameter read as the dict). None if the reader is not
+    of that form."""
+    from ..paths import Path
+    from ..astutil import substitute, substitute_stmt
+    tree = next((t for m, (r, t, _) in pm.modules.items() if r == rel), None)
+    dparam = reader.args.args[0].arg if reader.args.args else "input_dict"
+    loop = next((n for n in ast.walk(reader) if isinstance(n, ast.For) and isinstance(n.iter, ast.Name)
+                 and isinstance(n.target, ast.Tuple) and len(n.target.elts) == 2), None)
+    if loop is None or tree is None:
+        return None
+    table = next((n.value for n in tree.body if isinstance(n, ast.Assign) and len(n.targets) == 1
+                  and isinstance(n.targets[0], ast.Name) and n.targets[0].id == loop.iter.id), None)
+    if not isinstance(table, (ast.List, ast.Tuple)):
+        return None
+    finder = pm.function_finder(rel)
+    entries = []
+    for e in table.elts:
+        if not (isinstance(e, ast.Tuple) and len(e.elts) == 2 and isinstance(e.elts[0], ast.Lambda)
+                and isinstance(e.elts[1], ast.Name) and len(e.elts[0].args.args) == 1):
+            return None
+        h = finder(e.elts[1].id)
+        if h is None or not h.args.args:
+            return None
+        d = ast.Name(id=dparam, ctx=ast.Load())
+        test = substitute(e.elts[0].body, {e.elts[0].args.args[0].arg: d})
+        body = [substitute_stmt(b, {h.args.args[0].arg: d}) for b in h.body]
+        entries.append((test, body))
+    paths = []
+    for i, (test, body) in enumerate(entries):
+        conds = [(t, False) for t, _ in entries[:i]] + [(test, True)]
+        paths.append(Path(conds, body, "return"))
+    paths.append(Path([(t, False) for t, _ in entries], [], "return"))
+    return paths
+
+
 EXPECTED_READER_CTOR = {"ExplainableObject": "SourceObject", "EmptyExplainableObject": "EmptyExplainableObject",
                         "ExplainableQuantity": "ExplainableQuantity",
                         "ExplainableHourlyQuantities": "ExplainableHourlyQuantities"}
@@ -363,6 +401,9 @@ def r_json_keys(E):
     rel, reader = pm.find_function(J2S, "json_to_explainable_object")
     from ..paths import enumerate_paths
     rpaths = enumerate_paths(reader)
+    tpaths = _table_reader_paths(pm, rel, reader)
+    if tpaths is not None:
+        rpaths = tpaths
     if len(rpaths) < 4:
         raise AnalysisError("json_to_explainable_object: fewer than 4 paths (one per kind of value expected)")
     writers = [("ExplainableObject", EB), ("EmptyExplainableObject", EO), ("ExplainableQuantity", EO),
@@ -990,5 +1031,92 @@ def r_json_walk(E):
             f"saved, reloaded as orphans and dropped by the next export", rel, c.lineno, h.name))
     res.samples.append({"bookkeeping_attributes": sorted(book), "walk_filters_by_name": filters_names,
                         "recursive_container_helper": deep[0].name if deep else None})
+    res.floor = 2
+    return res
+
+
+# ---------------------------------------------------------------------------------------------- R-JSON-DEFAULTS (C13)
+def _guaranteed_keys(name, fn):
+    """keys that the local dict `name` of function fn certainly has: those of its literal and those stored by
+    top-level statements of the function body (not under a condition)"""
+    keys = set()
+    for st in fn.body:
+        if isinstance(st, ast.Assign) and any(isinstance(t, ast.Name) and t.id == name for t in st.targets):
+            if isinstance(st.value, ast.Dict):
+                keys |= {k.value for k in st.value.keys if isinstance(k, ast.Constant)}
+            elif isinstance(st.value, ast.Call) and isinstance(st.value.func, ast.Name) and st.value.func.id == "dict":
+                keys |= {k.arg for k in st.value.keywords if k.arg}
+        if isinstance(st, ast.Assign):
+            for t in st.targets:
+                if isinstance(t, ast.Subscript) and isinstance(t.value, ast.Name) and t.value.id == name \
+                        and isinstance(t.slice, ast.Constant):
+                    keys.add(t.slice.value)
+    return keys
+
+
+@rule("R-JSON-DEFAULTS")
+def r_json_defaults(E):
+    pm = E.pm
+    res = RuleResult("R-JSON-DEFAULTS", "where the loader rebuilds a value with a constructor that has a non-None default "
+                                        "for a parameter the writer omits when it is None (source), the loader passes "
+                                        "that parameter explicitly on every path: otherwise a value saved without a source "
+                                        "comes back with the constructor's default source (and a changed label)")
+    rel, reader = pm.find_function("api_utils/json_to_system.py", "json_to_explainable_object")
+    tree = next(t for m, (r, t, _) in pm.modules.items() if r == rel)
+    explainable = {cn for cn in pm.classes if "ExplainableObject" in pm.mro(cn)}
+    fns = [n for n in ast.walk(tree) if isinstance(n, ast.FunctionDef)]
+
+    def enclosing(n):
+        x = getattr(n, "_parent", None)
+        while x is not None and not isinstance(x, ast.FunctionDef):
+            x = getattr(x, "_parent", None)
+        return x
+    for c in [n for n in ast.walk(tree) if isinstance(n, ast.Call) and isinstance(n.func, ast.Name) and n.func.id in explainable]:
+        owner, ini = pm.find_method(c.func.id, "__init__")
+        if ini is None:
+            continue
+        ps = [a.arg for a in ini.args.args][1:]
+        ds = ini.args.defaults
+        defaults = dict(zip(ps[len(ps) - len(ds):], ds))
+        risky = [p_ for p_, d in defaults.items() if p_ == "source" and not (isinstance(d, ast.Constant) and d.value is None)]
+        for p_ in risky:
+            res.instances += 1
+            bound = ps.index(p_) < len([a for a in c.args if not isinstance(a, ast.Starred)]) or any(k.arg == p_ for k in c.keywords)
+            star = [k.value for k in c.keywords if k.arg is None]
+            undecided = False
+            if not bound and star:
+                f = enclosing(c)
+                for sv in star:
+                    if not isinstance(sv, ast.Name) or f is None:
+                        undecided = True
+                        continue
+                    if f.args.kwarg is not None and f.args.kwarg.arg == sv.id:
+                        # **kwargs of the enclosing function: what every call in the module that forwards a ** dict
+                        # guarantees (the callee may be reached through a table, so every such call counts)
+                        sets = []
+                        for g in fns:
+                            for c2 in [n for n in ast.walk(g) if isinstance(n, ast.Call)]:
+                                for k2 in c2.keywords:
+                                    if k2.arg is None and isinstance(k2.value, ast.Name) and enclosing(c2) is g \
+                                            and not (g.args.kwarg is not None and g.args.kwarg.arg == k2.value.id):
+                                        sets.append(_guaranteed_keys(k2.value.id, g))
+                        if sets and all(p_ in s_ for s_ in sets):
+                            bound = True
+                        elif not sets:
+                            undecided = True
+                    elif p_ in _guaranteed_keys(sv.id, f):
+                        bound = True
+            if undecided and not bound:
+                res.undecided.append(f"{c.func.id}(...) in the loader: cannot tell whether `{p_}` is passed (** of an unknown dict)")
+            elif not bound:
+                f = enclosing(c)
+                res.findings.append(Finding(
+                    "R-JSON-DEFAULTS", f"{c.func.id} rebuilt without {p_}",
+                    f"the loader builds `{norm(c)[:70]}` without passing `{p_}` on every path, and {c.func.id}.__init__ "
+                    f"defaults it to `{norm(defaults[p_])}`: the writer omits the entry when the value has no {p_}, so such a "
+                    f"value comes back with that default (and ' from …' appended to its label), and a second export "
+                    f"differs from the first", rel, c.lineno, f.name if f is not None else "<module>"))
+            elif len(res.samples) < 4:
+                res.samples.append({"constructor": norm(c)[:70], "parameter": p_, "verdict": "passed explicitly"})
     res.floor = 2
     return res
